@@ -128,11 +128,17 @@ func renderNodeWithContext(ctx VueContext, w io.Writer, node *html.Node, indent 
 		parentTag := ctx.CurrentTag()
 		// Skip HTML escaping inside script and style tags
 		if parentTag == "script" || parentTag == "style" {
-			_, _ = w.Write([]byte(spaces + node.Data))
+			if _, err := w.Write([]byte(spaces + node.Data)); err != nil {
+				return err
+			}
 		} else if shouldEscapeTextNode(node.Data) {
-			_, _ = w.Write([]byte(spaces + html.EscapeString(node.Data)))
+			if _, err := w.Write([]byte(spaces + html.EscapeString(node.Data))); err != nil {
+				return err
+			}
 		} else {
-			_, _ = w.Write([]byte(spaces + node.Data))
+			if _, err := w.Write([]byte(spaces + node.Data)); err != nil {
+				return err
+			}
 		}
 
 	case html.ElementNode:
@@ -168,11 +174,19 @@ func renderNodeWithContext(ctx VueContext, w io.Writer, node *html.Node, indent 
 			}
 			// Special case for <template>: output content only, not the template tags
 			if tagName == "template" {
-				_, _ = w.Write([]byte(content))
+				if _, err := w.Write([]byte(content)); err != nil {
+					return err
+				}
 			} else {
-				_, _ = w.Write([]byte(spaces + "<" + tagName + renderAttrs(node.Attr) + ">"))
-				_, _ = w.Write([]byte(content))
-				_, _ = w.Write([]byte("</" + tagName + ">\n"))
+				if _, err := w.Write([]byte(spaces + "<" + tagName + renderAttrs(node.Attr) + ">")); err != nil {
+					return err
+				}
+				if _, err := w.Write([]byte(content)); err != nil {
+					return err
+				}
+				if _, err := w.Write([]byte("</" + tagName + ">\n")); err != nil {
+					return err
+				}
 			}
 			return nil
 		}
@@ -192,12 +206,18 @@ func renderNodeWithContext(ctx VueContext, w io.Writer, node *html.Node, indent 
 			// Render template tag without v-keep attribute
 			attrsWithoutKeep := helpers.FilterAttrs(node.Attr, "v-keep")
 
-			_, _ = w.Write([]byte(spaces + "<" + tagName))
+			if _, err := w.Write([]byte(spaces + "<" + tagName)); err != nil {
+				return err
+			}
 			// Create a temporary node with filtered attributes for renderAttrs
 			tempNode := *node
 			tempNode.Attr = attrsWithoutKeep
-			_, _ = w.Write([]byte(renderAttrs(tempNode.Attr)))
-			_, _ = w.Write([]byte(">\n"))
+			if _, err := w.Write([]byte(renderAttrs(tempNode.Attr))); err != nil {
+				return err
+			}
+			if _, err := w.Write([]byte(">\n")); err != nil {
+				return err
+			}
 
 			// Render children with increased indent
 			ctx.PushTag(tagName)
@@ -209,26 +229,42 @@ func renderNodeWithContext(ctx VueContext, w io.Writer, node *html.Node, indent 
 			}
 			ctx.PopTag()
 
-			_, _ = w.Write([]byte(spaces + "</" + tagName + ">\n"))
+			if _, err := w.Write([]byte(spaces + "</" + tagName + ">\n")); err != nil {
+				return err
+			}
 			return nil
 		}
 
 		// compact single-entry text nodes
 		if childCount == 0 {
-			_, _ = w.Write([]byte(spaces + "<" + tagName + renderAttrs(node.Attr) + "></" + tagName + ">\n"))
+			if _, err := w.Write([]byte(spaces + "<" + tagName + renderAttrs(node.Attr) + "></" + tagName + ">\n")); err != nil {
+				return err
+			}
 		} else if childCount == 1 && firstChild.Type == html.TextNode {
-			_, _ = w.Write([]byte(spaces + "<" + tagName + renderAttrs(node.Attr) + ">"))
+			if _, err := w.Write([]byte(spaces + "<" + tagName + renderAttrs(node.Attr) + ">")); err != nil {
+				return err
+			}
 			// Skip HTML escaping inside script and style tags
 			if tagName == "script" || tagName == "style" {
-				_, _ = w.Write([]byte(firstChild.Data))
+				if _, err := w.Write([]byte(firstChild.Data)); err != nil {
+					return err
+				}
 			} else if shouldEscapeTextNode(firstChild.Data) {
-				_, _ = w.Write([]byte(html.EscapeString(firstChild.Data)))
+				if _, err := w.Write([]byte(html.EscapeString(firstChild.Data))); err != nil {
+					return err
+				}
 			} else {
-				_, _ = w.Write([]byte(firstChild.Data))
+				if _, err := w.Write([]byte(firstChild.Data)); err != nil {
+					return err
+				}
 			}
-			_, _ = w.Write([]byte("</" + tagName + ">\n"))
+			if _, err := w.Write([]byte("</" + tagName + ">\n")); err != nil {
+				return err
+			}
 		} else {
-			_, _ = w.Write([]byte(spaces + "<" + tagName + renderAttrs(node.Attr) + ">\n"))
+			if _, err := w.Write([]byte(spaces + "<" + tagName + renderAttrs(node.Attr) + ">\n")); err != nil {
+				return err
+			}
 			ctx.PushTag(tagName)
 			childIndent := indent + 2
 			for c := firstChild; c != nil; c = c.NextSibling {
@@ -237,7 +273,9 @@ func renderNodeWithContext(ctx VueContext, w io.Writer, node *html.Node, indent 
 				}
 			}
 			ctx.PopTag()
-			_, _ = w.Write([]byte(spaces + "</" + tagName + ">\n"))
+			if _, err := w.Write([]byte(spaces + "</" + tagName + ">\n")); err != nil {
+				return err
+			}
 		}
 	}
 
